@@ -470,40 +470,75 @@ def _conj_has(test, expr_src):
     return False
 
 
+_SRG = {}
+
+
 def _scan_run_guard(p, f, call, arg):
-    """int(scanner.current()) inside `if X.eat_while(is_number)` with X.start = X.pos
-    stored before the test and no cursor movement in between."""
+    """int(X.current()) is the digit run exactly when, on every path that evaluates it, the events that touch X are, in this
+    order:  X.start = X.pos ;  X.eat_while(is_number) returning true ;  X.current().   Decided on the symbolic path
+    summaries of the function (sympath), so it does not depend on how the tests are spelled."""
     if not (isinstance(arg, ast.Call) and isinstance(arg.func, ast.Attribute) and arg.func.attr == 'current'):
         return None
+    from .. import sympath
     x = src_of(arg.func.value)
-    pm = p.parents(f)
-    n = call
-    the_if = None
-    while n is not None:
-        par = pm.get(n)
-        if isinstance(par, ast.If) and n in par.body and _conj_has(par.test, '%s.eat_while(is_number)' % x):
-            the_if = par
-            break
-        n = par
-    if the_if is None:
-        return 'not dominated by a successful %s.eat_while(is_number)' % x
-    # nothing between the if-test and the call moves the cursor
-    blk = pm.get(the_if)
-    body = None
-    for field in ('body', 'orelse', 'finalbody'):
-        b = getattr(blk, field, None)
-        if isinstance(b, list) and the_if in b:
-            body = b
-    if body is None:
-        return 'unrecognised block structure'
-    i = body.index(the_if)
-    for st in reversed(body[:i]):
-        s = src_of(st)
-        if s == '%s.start = %s.pos' % (x, x):
-            return True
-        if x + '.' in s or x + ',' in s or '(%s)' % x in s:
-            return 'statement `%s` touches the scanner between `%s.start = %s.pos` and the digit run' % (s, x, x)
-    return '`%s.start = %s.pos` does not precede the digit run in the same block' % (x, x)
+    key = (id(p), f.qualname, x)
+    if key not in _SRG:
+        verdict = []
+        try:
+            paths = sympath.feasible(sympath.summaries(p, f, inline=False))
+        except sympath.Unsupported as e:
+            paths = None
+            verdict.append(('undecided', str(e)))
+        n_sites = 0
+        for q in paths or []:
+            ev = q.events
+            for i, (sym, node, conds) in enumerate(ev):
+                if not (isinstance(node, ast.Call) and isinstance(node.func, ast.Attribute) and node.func.attr == 'current' and src_of(node.func.value) == x):
+                    continue
+                used = sympath.mentions(q, lambda n: isinstance(n, ast.Call) and isinstance(n.func, ast.Name) and n.func.id in ('int', 'float')
+                                        and n.args and isinstance(n.args[0], ast.Name) and n.args[0].id == sym)
+                if not used:
+                    continue
+                n_sites += 1
+                j = i - 1
+                stage = 'run'
+                why = None
+                while j >= 0:
+                    s2, n2, c2 = ev[j]
+                    j -= 1
+                    if not sympath.touches(n2, x):
+                        continue
+                    if stage == 'run':
+                        if isinstance(n2, ast.Call) and src_of(n2) == '%s.eat_while(is_number)' % x and (s2, True) in conds:
+                            stage = 'start'
+                            continue
+                        if isinstance(n2, ast.Call) and src_of(n2) == '%s.eat_while(is_number)' % x:
+                            why = 'the digit run may be empty here (the result of %s.eat_while(is_number) is not required to be true on this path)' % x
+                        else:
+                            why = 'not dominated by a successful %s.eat_while(is_number) (last scanner event before it: `%s`)' % (x, src_of(n2))
+                        break
+                    if stage == 'start':
+                        if isinstance(n2, ast.Assign) and src_of(n2.targets[0]) == '%s.start' % x and src_of(n2.value) == '%s.pos' % x:
+                            stage = 'done'
+                        else:
+                            why = 'statement `%s` touches the scanner between `%s.start = %s.pos` and the digit run' % (src_of(n2), x, x)
+                        break
+                if stage == 'done':
+                    verdict.append(('ok', None))
+                else:
+                    verdict.append(('bad', why or ('`%s.start = %s.pos` does not precede the digit run' % (x, x) if stage == 'start'
+                                                   else 'not dominated by a successful %s.eat_while(is_number)' % x)))
+        if paths is not None and n_sites == 0:
+            verdict.append(('undecided', 'no path evaluates the conversion'))
+        _SRG[key] = verdict
+    v = _SRG[key]
+    bad = [w for k, w in v if k == 'bad']
+    if bad:
+        return bad[0]
+    und = [w for k, w in v if k == 'undecided']
+    if und:
+        return ('undecided', und[0])
+    return True
 
 
 REVIEWED_NUMCONV = {
@@ -537,6 +572,9 @@ def exc_numconv(p, res):
                 continue
             if isinstance(r, str):
                 res.bad(F('EXC-NUMCONV', f, n, src_of(n), r + ': ValueError possible / wrong text converted'))
+                continue
+            if isinstance(r, tuple):
+                res.undecided('%s: %s' % (f.short, src_of(n)), r[1])
                 continue
             # (b) regex group
             g = arg
